@@ -33,7 +33,7 @@ def close_all(a, b, tol):
 
 def ode_part(ctx):
     for name, e in odes.E.items():
-        for k in range(ctx.scale(2, 10)):
+        for k in range(ctx.scale(4, 16)):
             style = e["ic"][k % len(e["ic"])]
             G, gkind = odes.graph(ctx.rng, small=e["small"])
             N = G.order()
@@ -103,7 +103,7 @@ def compare_nodelevel(r1, r2, perm, N):
 
 def sim_part(ctx):
     for sim in ("fast_nonMarkov_SIR", "fast_nonMarkov_SIS", "discrete_SIR"):
-        for _ in range(ctx.scale(25, 250)):
+        for _ in range(ctx.scale(60, 400)):
             c = allsims.gen_case(ctx.rng, sim)
             if c["init"]["kind"] not in ("list", "single"):
                 c["init"] = dict(kind="list", nodes=[0])
